@@ -345,6 +345,41 @@ fn all_lines(thorough: bool) -> Vec<Line> {
     v
 }
 
+/// one-ply capture lines from the BATTERY family (own king on the 8 spread squares): the
+/// printed notation of captures that resolve a check or happen on a king line
+fn battery_lines() -> Vec<Line> {
+    let mut v = Vec::new();
+    for &k in &uni::SPREAD8 {
+        for stm in 0..2 {
+            uni::battery(k * 2 + stm, 2, false, &mut |p| {
+                for m in p.legal() {
+                    if p.is_capture(m) && kind(p.b[m.from as usize]) != K {
+                        v.push(Line { start: *p, moves: vec![m] });
+                        // a second own man of the same kind that can make the same capture: the
+                        // printed move then needs (exactly) the standard disambiguation
+                        let c = p.b[m.from as usize];
+                        for s2 in 0..64 {
+                            if p.b[s2] != EMPTY {
+                                continue;
+                            }
+                            let mut q = *p;
+                            q.b[s2] = c;
+                            if !is_valid_normal(&q) {
+                                continue;
+                            }
+                            let l = q.legal();
+                            if l.contains(&m) && l.iter().any(|o| o.to == m.to && o.from as usize == s2) {
+                                v.push(Line { start: q, moves: vec![m] });
+                            }
+                        }
+                    }
+                }
+            });
+        }
+    }
+    v
+}
+
 pub fn run(run: &mut Run) {
     run.counter_names = NAMES;
     run.max_idx = MAX_IDX;
@@ -357,6 +392,13 @@ pub fn run(run: &mut Run) {
     let wl = if thorough { 8 } else { 6 };
     run.par_shards(&format!("LINES ({} chains) x all walker words of length <= {} over {{next, prev, start, end}} x all print policies", ls.len(), wl), ls.len(), |ctx, i| {
         check_line(ctx, &ls[i], wl);
+    });
+    let bl = battery_lines();
+    let chunks: Vec<&[Line]> = bl.chunks(256).collect();
+    run.par_shards(&format!("BATTERY capture lines ({} one-ply chains) x walker words <= 2 x all print policies", bl.len()), chunks.len(), |ctx, i| {
+        for l in chunks[i] {
+            check_line(ctx, l, 2);
+        }
     });
 }
 
